@@ -17,19 +17,33 @@ PROP = dict(
           "values with boosted quote, backslash, control bytes, 0x7F, 0x80-0xFF and the empty string, empty containers); (iii) a chain "
           "generator nesting lists/dicts up to depth 100; (iv) Hypothesis-generated trees serialized under the four standard masks and "
           "read by Python's json. Non-trivial: the tree has a container and (a float whose %g form has an exponent, or a string/key byte "
-          "outside 0x20-0x7E, or an empty container). Distinct = distinct case encodings (hash)."),
+          "outside 0x20-0x7E, or an empty container). Subcheck `assign` (1 evaluation per case): a case is a pair (target tree, source tree); "
+          "`target = source` is executed on a target that already holds the target tree - null, scalar, string, list, an unrelated tree, "
+          "or a structural variation of the source (keys / items dropped, added, replaced, recursively) - also as an element of a list "
+          "and a value of a dictionary, and a second assignment restores the former value; the copy must compare equal to the source, match "
+          "the source's model, and neither side may see the other's mutation or destruction. Enumerated: every ordered pair over 74 "
+          "values (leaves, lists, all 64 dictionaries over keys a,b,c with values 1 / {x:1} / {y:2}); non-trivial = dictionary target "
+          "holding a key the source lacks. Subcheck `after_reject` (1 evaluation per case): a case is [0..3 texts parsed first on the "
+          "same thread, tree, option mask]; the texts are built to be rejected inside a string token (bad escape, incomplete \\x / \\u, "
+          "end of input) or elsewhere, or are the tree's own serialization truncated / with one byte replaced, or valid; their outcome is "
+          "not asserted; then all round-trip clauses (default and, for standard masks, strict parser) must hold; enumerated: 15 fixed "
+          "texts x default/strict x 7 trees x 4 masks; non-trivial = at least one text was rejected. "
+          "Distinct = distinct case encodings (hash)."),
     assumptions=["floats are finite normal doubles or +-0.0 (subnormals, inf and NaN are outside the stated domain and are never generated)",
                  "floats are compared at the six significant digits %g keeps (equal '%.6g' text), ints exactly, strings byte-wise",
                  "dictionary keys are unique (a repeated key in a generated dictionary is dropped before the value is built)",
                  "'standard-compliant' output = option masks within {FORMAT, SORT_DICT_KEYS}, the only options JSON.hh documents as such",
-                 "Python json reads \\u00XX as U+00XX; strings are compared as latin-1 bytes"],
+                 "Python json reads \\u00XX as U+00XX; strings are compared as latin-1 bytes",
+                 "assignment where the source is the target itself or a part of it (a = a, a = a.at(0)) is left open by the statement and not generated",
+                 "the outcome of parsing the texts that precede a round trip in `after_reject` (accept or throw a std::exception) is not asserted here; C05 owns the parser's error behaviour"],
     min_evaluations_quick=200000,
     engine="rapidcheck + exhaustive enumerators + Hypothesis (Python json as independent reader)",
     technique=("property-based round-trip testing: value trees built through the public constructors are serialized under all 64 option "
                "masks by the real code (ASan+UBSan), parsed back and compared with an independent model tree through the public accessors; "
                "re-serialization with sorted keys must reproduce the text; standard-mode text is additionally read by strict mode, by an "
                "independent RFC 8259 reader written for the harness and by Python's json module; copies are mutated and destroyed and the "
-               "source compared with the model"),
+               "source compared with the model; copy assignment is additionally driven onto generated live targets (pairs of trees), and the "
+               "round trip is repeated after generated malformed texts were parsed on the same thread"),
     level_text=("Exploration: every generated tree is checked under all 64 option masks against an explicit model, so any value shape in "
                 "the generated domain that does not survive serialize->parse, is not standard JSON in standard mode, or shares state with "
                 "its copy is reported with a shrunk replayable tree. It shows the identity on everything explored (about 10^6 tree x mask "
